@@ -6,6 +6,7 @@ package vh
 
 import (
 	"bufio"
+	"bytes"
 	"encoding/json"
 	"flag"
 	"fmt"
@@ -643,4 +644,28 @@ func RaceFailure(report string) *Failure {
 		report = report[:3000] + "\n..."
 	}
 	return Failf("data-race/"+site, "the Go race detector reported a data race while this case ran:\n%s", report)
+}
+
+// ---------------------------------------------------------------- native fuzzing (thorough tier)
+
+// Fuzz wraps a sub-check as a native Go fuzz target through rapid.MakeFuzz: the fuzzer's byte
+// string drives the generator's draw stream (coverage-guided), the same oracle judges the case.
+// A failure writes a replay file named fuzz-<sub>-<hash>.json (the reproducible unit) and fails
+// the target; the driver turns it into a VIOLATION line.
+func Fuzz[C any](f *testing.F, s Spec[C]) {
+	f.Add([]byte{})
+	f.Add([]byte{1, 2, 3, 4, 5, 6, 7, 8, 9, 10, 11, 12, 13, 14, 15, 16, 17, 18, 19, 20, 21, 22, 23, 24, 25, 26, 27, 28, 29, 30, 31, 32})
+	f.Add(bytes.Repeat([]byte{0xff, 0x00, 0x7f, 0x80}, 64))
+	fs := s
+	fs.Name = "fuzz-" + s.Name
+	f.Fuzz(rapid.MakeFuzz(func(rt *rapid.T) {
+		c := s.Gen(rt)
+		o := &Obs{}
+		fl := exec(s, c, o)
+		if fl == nil || IsKnown(fl.Sig) {
+			return
+		}
+		p := writeReplay(fs, c, fl)
+		rt.Fatalf("VIOLATION-DETAIL %s/%s sig=%s replay=%s\n%s", out.Meta.ID, s.Name, fl.Sig, p, fl.Msg)
+	}))
 }
